@@ -226,7 +226,8 @@ def run_tool(spec, opts, stdin, texts, trace, k, res, tag):
     try:
         r = cli.run_cli(argv, stdin_bytes=stdin_bytes, files=files, plans=plans,
                         stdin_plan=trace.get('read_plan'), stdout_plan=trace.get('write_plan'), counters=k,
-                        text_chunk=(trace.get('read_plan') or {}).get('text_chunk'))
+                        text_chunk=(trace.get('read_plan') or {}).get('text_chunk'),
+                        stdin_slow=(trace.get('mixseed', 0) % 3) if stdin else 0)
     finally:
         if rnd:
             import random as _random
